@@ -31,6 +31,8 @@ def exc_site(e):
     if site is None and frames:
         fr = frames[-1]
         site = '%s.%s' % (os.path.basename(fr.filename), fr.name)
+    if isinstance(e, RecursionError):
+        return 'RecursionError@<wherever the stack ran out>'    # the innermost frame is arbitrary
     return '%s@%s' % (type(e).__name__, site)
 
 
